@@ -136,7 +136,7 @@ public:
   const char* Name() const override { return "schemasim"; }
   std::vector<std::string> Properties() const override { return { "C07", "C08", "C09", "C10", "C12", "C04" }; }
   uint64_t DefaultRuns(const std::string& focus_, bool thorough) const override {
-    (void)focus_; return thorough ? 60000 : 2400;
+    (void)focus_; return thorough ? 500000 : 12000;
   }
   Cfg GenCfg(Rng& r, const std::string& focus_, bool) override {
     Cfg c;
@@ -147,6 +147,7 @@ public:
     c["expr_depth"] = r.Range(1, 3);
     c["p_mutant"] = r.Pct(30) ? 0 : r.Range(5, 40);
     c["p_dup"] = r.Range(0, 15);
+    c["inflect_limit"] = r.Pct(88) ? 24 : 0;   // 0: unbounded inflector stub (cyclic term references may then explode, KF-C04-1)
     c["observe"] = r.Pct(60) ? 1 : r.Pct(60) ? r.Range(2, 5) : 0;    // every step / every k-th / end only
     c["w_create"] = r.Range(3, 8); c["w_expr"] = r.Range(2, 8); c["w_text"] = r.Range(0, 6); c["w_rename"] = r.Range(0, 4);
     c["w_struct"] = r.Range(1, 4); c["w_track"] = r.Range(0, 2); c["w_ops"] = r.Range(0, 3); c["w_persist"] = r.Range(0, 3); c["w_api"] = r.Range(0, 2);
@@ -159,7 +160,8 @@ public:
   }
   void Begin(Ctx& c) override {
     focus = c.focus;
-    proc = InstallTextProc();
+    proc = InstallTextProc(); proc->limit = static_cast<size_t>(c.C("inflect_limit", 24));
+    c.Count("knob.inflect_limit=" + std::to_string(proc->limit));
     docs.clear(); docs.resize(static_cast<size_t>(c.C("docs", 1)));
     for (auto& d : docs) d.f = std::make_unique<RSForm>();
     maxCst = static_cast<size_t>(c.C("max_cst", 12)); exploded = false;
